@@ -76,6 +76,7 @@ static void run_op(char **t, int n) {
   const char *o = t[0]; int st;
   unsigned long long e0 = cov_edges; long w0 = sm_written_total; long c0[K_NKINDS]; memcpy(c0, calls, sizeof c0);
   opno++;
+  { int k; printf("vars"); for (k = 1; k < n && k < 3; k++) if ((t[k][0] == 'c' || t[k][0] == 'h') && t[k][1] >= '0' && t[k][1] <= '9' && strlen(t[k]) <= 3) printf(" %s", t[k]); printf("\n"); }
   if (!strcmp(o, "cab_new")) { cabd = mspack_create_cab_decompressor(sm_system()); printf("op %d cab_new ok=%d\n", opno, cabd != NULL); }
   else if (!strcmp(o, "cab_param") && n >= 3) { st = cabd ? cabd->set_param(cabd, atoi(t[1]), atoi(t[2])) : -1; printf("op %d cab_param st=%d\n", opno, st); }
   else if ((!strcmp(o, "cab_open") || !strcmp(o, "cab_search")) && n >= 3) {
@@ -156,7 +157,8 @@ static void run_op(char **t, int n) {
     if (!chmd || !h) return;
     for (f = h->files; f && k < max; f = f->next, k++) {
       if (k) opno++;
-      memset(&fi, 0x5c, sizeof fi); st = chmd->fast_find(chmd, h, f->filename, &fi, (int) sizeof fi); ST("chm_find", st, chmd->last_error(chmd));
+      memset(&fi, 0x5c, sizeof fi); st = chmd->fast_find(chmd, h, f->filename, &fi, (int) sizeof fi);
+      printf("op %d chm_find st=%d err=%d name=", opno, st, chmd->last_error(chmd)); strhex(f->filename); printf("\n");
       if (st == 0) { if (fi.section) printf("found sec=%u off=%ld len=%ld\n", fi.section->id, (long) fi.offset, (long) fi.length); else printf("found none\n"); }
       printf("listed sec=%u off=%ld len=%ld\n", f->section ? f->section->id : 9, (long) f->offset, (long) f->length);
     }
@@ -182,7 +184,7 @@ static void run_op(char **t, int n) {
     struct mschmd_file fi; unsigned char *nm; if (!chmd || !chms[vi(t[1])]) return;
     unhex(t[2], &nm); memset(&fi, 0x5c, sizeof fi);
     st = chmd->fast_find(chmd, chms[vi(t[1])], (char *) nm, &fi, (int) sizeof fi);
-    ST(o, st, chmd->last_error(chmd));
+    printf("op %d chm_find st=%d err=%d name=%s\n", opno, st, chmd->last_error(chmd), t[2]);
     if (st == 0) { if (fi.section) printf("found sec=%u off=%ld len=%ld\n", fi.section->id, (long) fi.offset, (long) fi.length); else printf("found none\n"); }
     if (st == 0 && fi.section && n >= 4) { opno++; w0 = sm_written_total; st = chmd->extract(chmd, &fi, t[3]); ST("chm_extract", st, chmd->last_error(chmd));
       printf("declared %ld written %ld\n", (long) fi.length, sm_written_total - w0); show_out(t[3]); }
